@@ -87,7 +87,7 @@ func genEquals() (lean string, rows int, err error) {
 	rows++
 	var sb strings.Builder
 	sb.WriteString("import ZapVerif.Model.Field\n/-! The arms of `Field.Equals` (zapcore/field.go). -/\nnamespace ZapVerif.Gen\nopen ZapVerif.Field\n\n")
-	sb.WriteString("/-- which comparison `Field.Equals` uses per field type (after the `Type` and `Key` guards) -/\n@[simp] def equalsArm : FT → EqArm\n")
+	sb.WriteString("/-- which comparison `Field.Equals` uses per field type (after the `Type` and `Key` guards) -/\ndef equalsArm : FT → EqArm\n")
 	for _, n := range fieldTypeNames {
 		ft, _ := ftOf(n + "Type")
 		if a, ok := arms[n]; ok {
